@@ -101,6 +101,12 @@ CLAIMED.update({
   "text": "TLC model-checks Malformed.tla (AlwaysAlive, AlwaysAnswers = ENABLED Malformed for every vector in every state, ErrorLeavesState) and enumerates all 4776 vectors of context x endpoint (29) x class (129) x addressed entity x channel. Every vector becomes seeded instances - structured mutations of a valid message of that endpoint (signed CMS with garbage or odd XML, DER tag/length flips, JSON type/number/nesting/duplicate mutations, ROA / prefix / ASN / resource-set / handle / certificate / URI value classes, path-segment mutations) or raw random bytes - run on the real code through two channels: direct (CaManager::rfc6492, RepositoryManager::rfc8181, serde decoding of the API request types followed by the manager call the dispatcher makes, the FromStr parsers of stored notations, BgpAnalyser) inside catch_unwind, and http (the real HttpServer::process_request: authentication, dispatcher, thread pool). Recorded per vector and distinct outcome: kind of reply, whether the configuration digest or the published-content digest changed, panic location; panic, exit, a non-reply, an error reply with a changed digest and an ok reply to a by-construction-malformed class match no action of the trace spec. The catalogue is covered completely, the byte space is sampled (quick ~48 k inputs, thorough ~850 k): a clean run is no proof of absence.",
   "note": "Harness profile has release arithmetic (overflow-checks=false, debug-assertions=false) and panic=unwind; process::exit is observed through about_to_exit; process deaths that are not panics through the harness exit status. The http channel has no scheduler thread. Status records are not configuration. Classification of replies, mutators and seeds are trusted. Known findings: two panics inside the rpki crate, bulk import and child update not atomic.",
   "ref": "§6 C16", "engines": ["TLC", "kv-fuzz"]},
+ "C08": {
+  "technique": "TLA+ model of the mutation pipeline (spec/PipelineDefs.tla, Pipeline.tla: every operation split into its real sequence of key-value and file-system mutations, Crash(k) / IoError(k) between any two, Restart, Pump, Resubmit) checked with TLC (-continue: the set of bad cuts of the design); every cut of every operation instance enumerated on the real code through the fault points; TLC (PipelineTrace.tla) judges every executed cut",
+  "level": "fault_enumeration",
+  "text": "Seven scenarios (roa, chain, roll, create, maint, trunc, remove) expand into 73 operation instances: 17 API request kinds and the task kinds sync_parent (both halves, revocation variant), sync_repo, update_rrdp, in the state classes active key, roll_new, roll_old, pending key, queued / unqueued synchronisation, last / not-last publication. The real mutation sequence of each instance is recorded with the fault injector in Count mode; every cut k = 1..N x {crash, failing write} gives 1486 cases (thorough: all; quick: 200 seeded cases covering all 164 kind x mutation-class x mode strata). Each case runs on the disk back-end: a crash is a fresh runtime on the surviving directory plus the start-up lines of the scheduler; then pump, resubmit, the rest of the chain, settle; a fault-free twin runs once per scenario. TLC checks per case that the mutations before the cut are the twin's, that the durable key set equals the fold of the mutations that took effect, that the process goes down and the request is acknowledged exactly where the model says, and evaluates the clauses AllLoad, AckedNeverLost, UnackedAllOrNothing (audit log, memory, object set), RPCleanAfterRestart / AfterPump / Final (relying-party walk over server content, on-disk RRDP snapshot and rsync tree, relative to the twin) and TwinEquivalence on the observed facts; verdicts are compared with the model's predictions.",
+  "note": "Assumed: a disk back-end mutation is atomic (cuts are between mutations, never inside one); one fault per history; the label-to-effect translation; same-millisecond task ties resolved in a fixed order; passing time replaced by making rescheduled tasks due; single resource class, local parent and local repository. The ta_proxy / ta_signer / keys / signers namespaces are cut points but their durable effect is not compared. Known findings: the pre-save ordering (upstream issue 1182) and its non-converging consequences, RRDP/rsync files not rewritten after a failed update, publish delta stored but update task lost, no rsync current directory between the two renames, post-save reschedule drops a sync task, delete_ca withdraws best effort.",
+  "ref": "§6 C08", "engines": ["TLC", "kv-fault"]},
  "C13": {
   "technique": "TLA+ decision-table model (spec/Authz.tla) checked with TLC; TLC-enumerated request cases executed against the real daemon started in-process (Unix socket and TLS); TLC (AuthzTrace.tla) judges every recorded request",
   "level": "model_checking",
@@ -151,6 +157,8 @@ def main():
              "kind_free_text": "Rust harness replaying TLC-enumerated decision vectors (ROA analysis, configuration validation)"},
             {"name": "kv-fuzz", "path": "harness-fuzz/", "serves_properties": [p for p in served if "kv-fuzz" in CLAIMED[p]["engines"]],
              "kind_free_text": "Rust harness feeding seeded malformed inputs to the provisioning, publication and API entry points inside catch_unwind and through the real HTTP request processing"},
+            {"name": "kv-fault", "path": "harness-fault/", "serves_properties": [p for p in served if "kv-fault" in CLAIMED[p]["engines"]],
+             "kind_free_text": "Rust harness enumerating crash and I/O-error cuts at every key-value and file-system mutation of every operation, with restart, pump, resubmission and a fault-free twin"},
             {"name": "kv-auth", "path": "harness-auth/", "serves_properties": [p for p in served if "kv-auth" in CLAIMED[p]["engines"]],
              "kind_free_text": "Rust harness for signed RFC 6492 / RFC 8181 exchanges and the TA proxy/signer exchange"},
         ],
